@@ -9,7 +9,7 @@ use std::collections::{BTreeMap, BTreeSet};
 
 pub fn monitor() -> Monitor {
   Monitor { id: "C14",
-    rule: "(cell, delta) pairs with delta >= 1 and depth+delta <= 29 (plus, per run, 16 cells with delta drawn from 7..22 (..24 thorough) so that the small / medium / large z-order implementations and their top bits are all exercised: boxed vs append helpers, external edge (all forms) against the neighbours of the deep border cells): every cell of depths <= 2 with delta <= 4 (quick) / depths <= 4 with delta <= 6 (thorough); deeper depths: the class sample (corners / borders / second ring / centre of each of the 12 base cells) plus uniform cells, delta in 1..=6 and the largest delta allowed. Expected internal walk is built from the reference bit-interleave; the expected external set from the crate's neighbours (judged geometrically by C04) of the deep border cells, with a geometric spot check. Non-trivial = cell on a base-cell border/corner (the external edge crosses a seam) or depth+delta == 29.",
+    rule: "(cell, delta) pairs with depth+delta <= 29: delta = 0 on 9 cells of depths 0..29 (the cell is its own border, its external edge is its neighbour set), delta >= 1 (plus, per run, 16 cells with delta drawn from 7..22 (..24 thorough) so that the small / medium / large z-order implementations and their top bits are all exercised: boxed vs append helpers, external edge (all forms) against the neighbours of the deep border cells): every cell of depths <= 2 with delta <= 4 (quick) / depths <= 4 with delta <= 6 (thorough); deeper depths: the class sample (corners / borders / second ring / centre of each of the 12 base cells) plus uniform cells, delta in 1..=6 and the largest delta allowed. Expected internal walk is built from the reference bit-interleave; the expected external set from the crate's neighbours (judged geometrically by C04) of the deep border cells, with a geometric spot check. Non-trivial = cell on a base-cell border/corner (the external edge crosses a seam) or depth+delta == 29.",
     assumptions: &["Layer::neighbours is geometrically correct (property C04, judged in its own run) — used to build the expected external set", "reference bit-interleave"],
     run, replay }
 }
@@ -251,16 +251,36 @@ fn wrappers(ctx: &mut Ctx) {
     match r { Err(p) => ctx.violation("internal_corner-panics", c.clone(), p), Ok(bad) => for b in bad { ctx.violation("direction-specific-helper-differs-from-its-dispatcher", c.clone().s("fn", b), b.to_string()); } }
     ctx.hard("wrapper", &[d as u64, h, dd as u64]);
   }
-  // delta_depth = 0 is outside the statement (its count 4.2^delta - 4 is 0 there, and the code shifts a mask by 64 bits): observed
-  // for information only (what a caller gets), never counted as a violation
-  for &h in [0u64, 5, 11].iter() {
-    let layer = nested::get_or_create(0);
-    let ngb: std::collections::BTreeSet<u64> = layer.neighbours(h, false).values_vec().into_iter().collect();
-    match catch(|| layer.external_edge(h, 0)) {
-      Err(_) => ctx.info("delta_depth=0:external_edge-panics(not-claimed)"),
-      Ok(v) => { let got: std::collections::BTreeSet<u64> = v.iter().cloned().collect(); ctx.info(if got == ngb && v.len() == ngb.len() { "delta_depth=0:external_edge-is-the-neighbour-set(not-claimed)" } else { "delta_depth=0:external_edge-is-not-the-neighbour-set(not-claimed)" }); }
+  // delta_depth = 0 (legal at every depth, the only legal value at depth 29): the cell is its own border ring, its external edge is its
+  // set of neighbours. (The count 4.2^delta - 4 of the statement is degenerate there; the set definitions are not.)
+  for &(d, h) in [(0u8, 0u64), (0, 5), (0, 11), (1, 17), (3, 100), (3, 767), (10, 5_000_000), (29, 0), (29, 3_458_764_513_820_540_927)].iter() {
+    let layer = nested::get_or_create(d);
+    let c = Case::new("wrapper").u("depth", d as u64).u("h", h).u("dd", 0);
+    ctx.evals_n(6);
+    let ngb_map = layer.neighbours(h, false);
+    let mut ngb: Vec<u64> = ngb_map.values_vec(); ngb.sort();
+    match catch(|| (Layer::internal_edge(h, 0).to_vec(), Layer::internal_edge_sorted(h, 0).to_vec(), (0..4).map(|k| nested::internal_corner(h, 0, &card(k))).collect::<Vec<u64>>(), (0..4).map(|k| nested::internal_edge_part(h, 0, &ord(k)).to_vec()).collect::<Vec<Vec<u64>>>())) {
+      Err(p) => ctx.violation("internal_edge-panics", c.clone(), p),
+      Ok((ie, ies, corners, parts)) => {
+        if ie != vec![h] || ies != vec![h] { ctx.violation("internal_edge-not-the-border-walk-from-south-through-east", c.clone(), format!("delta 0: {:?} / sorted {:?}, expected [{}]", ie, ies, h)); }
+        if corners.iter().any(|&x| x != h) { ctx.violation("internal_corner-wrong", c.clone(), format!("delta 0: {:?}", corners)); }
+        if parts.iter().any(|v| v[..] != [h]) { ctx.violation("internal_edge_part-not-the-cells-of-that-side", c.clone(), format!("delta 0: {:?}", parts)); }
+      }
     }
-    match catch(|| Layer::internal_edge(h, 0)) { Err(_) => ctx.info("delta_depth=0:internal_edge-panics(not-claimed)"), Ok(v) => ctx.info(&format!("delta_depth=0:internal_edge-returns-{}-entries(not-claimed)", v.len())) }
+    match catch(|| (layer.external_edge(h, 0).to_vec(), layer.external_edge_sorted(h, 0).to_vec())) {
+      Err(p) => ctx.violation("external_edge-panics", c.clone(), p),
+      Ok((e, es)) => { let mut g = e.clone(); g.sort(); let n0 = g.len(); g.dedup();
+        if g.len() != n0 { ctx.violation("external_edge-has-duplicates", c.clone(), format!("{:?}", e)); } else if g != ngb { ctx.violation("external_edge-not-the-adjacent-outside-cells", c.clone(), format!("delta 0: {:?}, neighbours {:?}", e, ngb)); }
+        if es != ngb { ctx.violation("external_edge_sorted-not-the-sorted-set", c.clone(), format!("delta 0: {:?}, neighbours {:?}", es, ngb)); } }
+    }
+    match catch(|| { let x = layer.external_edge_struct(h, 0); ((0..4).map(|k| x.get_corner(&card(k))).collect::<Vec<_>>(), (0..4).map(|k| x.get_edge(&ord(k)).to_vec()).collect::<Vec<_>>()) }) {
+      Err(p) => ctx.violation("external_edge_struct-panics", c.clone(), p),
+      Ok((cs, es)) => {
+        for k in 0..4 { if cs[k] != ngb_map.get(card_mw(k)).copied() { ctx.violation("external_edge_struct-corner-wrong", c.clone().u("k", k as u64), format!("delta 0: {:?} vs neighbour {:?}", cs[k], ngb_map.get(card_mw(k)))); } }
+        for k in 0..4 { let want: Vec<u64> = ngb_map.get(ord_mw(k)).copied().into_iter().collect(); if es[k] != want { ctx.violation("external_edge_struct-side-wrong", c.clone().u("k", k as u64), format!("delta 0: {:?} vs neighbour {:?}", es[k], want)); } }
+      }
+    }
+    ctx.hard("delta_depth=0", &[d as u64, h]);
   }
 }
 
